@@ -105,6 +105,10 @@ NOPANIC = {
     "std::char::methods::<impl char>::is_ascii_digit": "range test",
     "std::char::methods::<impl char>::is_ascii_lowercase": "range test",
     "std::char::methods::<impl char>::is_ascii": "range test",
+    "std::char::methods::<impl char>::is_ascii_uppercase": "range test",
+    "std::char::methods::<impl char>::is_ascii_alphabetic": "range test",
+    "std::char::methods::<impl char>::to_ascii_lowercase": "total: sets one bit for 'A'..='Z', identity otherwise",
+    "std::char::methods::<impl char>::to_ascii_uppercase": "total: clears one bit for 'a'..='z', identity otherwise",
     "std::convert::Into::into": "conversion through a local From impl (in the census if local)",
     "<std::str::Split<'a, P> as std::iter::Iterator>::next": "returns Option",
     "std::iter::Iterator::count": "bounded by the string length",
@@ -500,25 +504,39 @@ def _through_try(f, ex, e):
     return e
 
 
+# characters that upper/lower-case or normalise to a FEN letter, or merely look like one
+LOOKALIKES = ("\u212a", "\u017f", "\u0130", "\u0131", "\uff2b", "\uff4b", "\uff30", "\uff50", "\u041a", "\u043a", "\u0420", "\u0440",
+              "\u039a", "\u03ba", "\u00df", "\u00d1", "\u00f1", "\u1e9e", "\U0001d40a")
+
+
 def r15_3(ctx):
     f = ctx.facts
     fn = "board::BoardState::piece_from_fen_string_char"
     b = f.body(fn)
     ctx.note_fn(fn, FROM_FEN)
     ex = Exprs(b)
+    # the letter table is decided by *running* the function on every relevant character (finite
+    # instantiation, wa/concwalk.py), not by reading arm literals: all of ASCII plus non-ASCII
+    # look-alikes / case-folding traps, which must be rejected ("ASCII only")
+    from wa.concwalk import Conc, NONE
+    from wa.interp import Unknown
+    if b.loops() or b.arg_count != 1 or b.local_ty(1) != "char":
+        raise ShapeNotRecognised("piece_from_fen_string_char(char) is not a loop-free function of one char")
+    probes = [chr(c) for c in range(0, 128)] + list(LOOKALIKES)
+    pf = f.struct_fields("board::Piece")
     table = {}
-    for bb in b.normal:
-        t = b.term(bb)
-        if t["k"] == "switch" and t["discr_ty"] == "char":
-            for v, tg in t["cases"]:
-                for i, st in enumerate(b.stmts(tg)):
-                    if st["k"] == "assign":
-                        e = ex.rvalue(st["rv"], (tg, i))
-                        for x in subexprs(e):
-                            if x[0] == "agg" and x[1] == "board::Piece":
-                                fields = f.struct_fields("board::Piece")
-                                vals = dict(zip(fields, x[3]))
-                                table[chr(v)] = (vals["color"][2], vals["kind"][2])
+    for ch in probes:
+        try:
+            v = Conc(f, b, {("arg", 1): ord(ch)}, ex).run()
+        except Unknown as e:
+            raise ShapeNotRecognised("piece_from_fen_string_char(%r) cannot be evaluated: %r" % (ch, e))
+        if v is None or v == NONE:
+            continue
+        pc = v[1] if (isinstance(v, tuple) and len(v) == 2 and v[0] == "some") else None
+        if not (isinstance(pc, tuple) and pc and pc[0] == "adt" and pc[1] == "board::Piece" and len(pc[3]) == len(pf)):
+            raise ShapeNotRecognised("piece_from_fen_string_char(%r) = %r is not an Option<Piece>" % (ch, v))
+        vals = dict(zip(pf, pc[3]))
+        table[ch] = (vals["color"][2], vals["kind"][2])
     want = {}
     for ch, kind in chess.FEN_LETTERS.items():
         want[ch] = ("Black", kind)
@@ -706,6 +724,21 @@ def r15_5(ctx):
         arg = ex.call_args(bb)[0]
         src = [x for x in data_slice(ex, strip_refs(arg)) if x[0] == "call" and x[1].startswith("clap::ArgMatches")]
         panicky = [x for x in src if x[1].split("::")[-1] in ("value_of", "values_of")]
+        # ... and faithfully: a partial conversion (`OsStr::to_str`, `into_string().ok()`) turns "present but
+        # not UTF-8" into "absent", so the default position is loaded and no error is printed
+        partial = [x for x in data_slice(ex, strip_refs(arg)) if x[0] == "call" and x[1].split("::")[-1] in ("to_str", "into_string")
+                   and ("OsStr" in x[1] or "OsString" in x[1])]
+        if any(x[1].split("::")[-1] in ("value_of_os", "values_of_os") for x in src):
+            # the conversion may sit in a closure handed to and_then / map
+            for cn in f.body_names():
+                if cn.startswith("main::{closure"):
+                    for cb_, ct_ in f.body(cn).iter_calls():
+                        c_ = callee_of(ct_) or ""
+                        if c_.split("::")[-1] in ("to_str", "into_string") and ("OsStr" in c_ or "OsString" in c_):
+                            partial.append(("call", c_, (), None))
+        ctx.ob("main:fen-argument-not-dropped", not partial, b.where(b.term_loc(bb)),
+               "the --fen argument reaches from_fen whenever it is present" if not partial else
+               "`%s` yields None for an argument that is not valid UTF-8, which is then treated like a missing --fen: the bad input is never reported" % partial[0][1].split("::")[-1])
         ctx.ob("main:fen-argument-accessor-total", not panicky, b.where(b.term_loc(bb)),
                "the --fen argument is read with %s%s" % (sorted({x[1].split("::")[-1] for x in src}) or "no clap accessor",
                                                        "" if not panicky else ": `value_of` panics on an argument that is not valid UTF-8 instead of letting from_fen reject it (value_of_lossy / value_of_os do not)"))
